@@ -7,6 +7,16 @@ Import ListNotations.
 Open Scope Z_scope.
 Ltac Zify.zify_post_hook ::= Z.div_mod_to_equations.
 
+Ltac bool2prop := repeat match goal with
+  | H : (_ <? _) = true |- _ => apply Z.ltb_lt in H
+  | H : (_ <? _) = false |- _ => apply Z.ltb_ge in H
+  | H : (_ <=? _) = true |- _ => apply Z.leb_le in H
+  | H : (_ <=? _) = false |- _ => apply Z.leb_gt in H
+  | H : (_ =? _) = true |- _ => apply Z.eqb_eq in H
+  | H : (_ =? _) = false |- _ => apply Z.eqb_neq in H
+  end.
+Ltac blia := bool2prop; lia.
+
 (* ================================================================ Z-indexed lists *)
 Lemma zlen_length {A} (l : list A) : zlen l = Z.of_nat (length l).
 Proof. induction l as [|x r IH]; [reflexivity|]. cbn [zlen length]. rewrite IH. lia. Qed.
@@ -228,3 +238,696 @@ Qed.
 
 Lemma forallb_Forall {A} (f : A -> bool) l : forallb f l = true <-> Forall (fun x => f x = true) l.
 Proof. rewrite forallb_forall, Forall_forall. reflexivity. Qed.
+
+(* ================================================================ static_len *)
+Lemma sum_opt_app a b :
+  sum_opt (a ++ b) = match sum_opt a, sum_opt b with Some x, Some y => Some (x + y) | _, _ => None end.
+Proof.
+  induction a as [|o r IH]; cbn [app sum_opt].
+  - destruct (sum_opt b); [f_equal|]; reflexivity.
+  - rewrite IH. destruct o; [|reflexivity]. destruct (sum_opt r); [|reflexivity].
+    destruct (sum_opt b); [|reflexivity]. f_equal. lia.
+Qed.
+
+Lemma sum_opt_rev l : sum_opt (rev l) = sum_opt l.
+Proof.
+  induction l as [|o r IH]; [reflexivity|]. cbn [rev]. rewrite sum_opt_app, IH. cbn [sum_opt].
+  destruct o; destruct (sum_opt r); try reflexivity. f_equal. lia.
+Qed.
+
+Lemma zlen_flat_map_const {A B} (f : A -> list B) w l :
+  Forall (fun v => zlen (f v) = w) l -> zlen (flat_map f l) = w * zlen l.
+Proof.
+  induction 1 as [|x r Hx _ IH]; cbn [flat_map]; [cbn [zlen]; lia|]. rewrite zlen_app, zlen_cons, IH, Hx. lia.
+Qed.
+
+Definition encs (ts : list ty) := map (fun t => (static_length t, encode t)) ts.
+Definition decs (chk : bool) (ts : list ty) := map (fun t => (static_length t, decode chk t)) ts.
+
+Lemma encs_rev ts : rev (encs ts) = encs (rev ts).
+Proof. unfold encs. symmetry. apply map_rev. Qed.
+Lemma decs_rev chk ts : rev (decs chk ts) = decs chk (rev ts).
+Proof. unfold decs. symmetry. apply map_rev. Qed.
+
+Definition static_len_at (t : ty) : Prop :=
+  forall n v, static_length t = Some n -> typed t v -> zlen (encode t v) = n.
+
+Lemma enc_fields_static_len ts vs n :
+  Forall static_len_at ts -> sum_opt (map static_length ts) = Some n -> Forall2 typed ts vs ->
+  zlen (enc_fields (encs ts) vs) = n.
+Proof.
+  intros HQ Hs HT. revert n HQ Hs. induction HT as [|t v ts vs Htv _ IH]; intros n HQ Hs.
+  - cbn in Hs. inversion Hs. reflexivity.
+  - inversion HQ as [|? ? Ht Hr]; subst. cbn [map sum_opt] in Hs.
+    destruct (static_length t) as [a|] eqn:Ea; [|discriminate].
+    destruct (sum_opt (map static_length ts)) as [b|] eqn:Eb; [|discriminate]. inversion Hs; subst.
+    cbn [encs map enc_fields]. rewrite Ea. cbn [with_prefix]. rewrite zlen_app.
+    rewrite (Ht a v Ea Htv). fold (encs ts). rewrite (IH b Hr eq_refl). reflexivity.
+Qed.
+
+Lemma record_static_len ts vs n :
+  Forall static_len_at ts -> sum_opt (map static_length ts) = Some n -> Forall2 typed ts vs ->
+  zlen (enc_fields (rev (encs ts)) (rev vs)) = n.
+Proof.
+  intros HQ Hs HT. rewrite encs_rev. apply enc_fields_static_len.
+  - apply Forall_rev. exact HQ.
+  - rewrite map_rev, sum_opt_rev. exact Hs.
+  - apply Forall2_rev. exact HT.
+Qed.
+
+Lemma typed_int bound v : int_below bound v = true -> exists z, v = VInt z /\ 0 <= z < bound.
+Proof. destruct v; cbn; try discriminate. intros H. apply andb_true_iff in H. exists z. split; [reflexivity|lia]. Qed.
+
+Lemma typed_list_array n t v : typed (TArray n t) v ->
+  exists l, v = VList l /\ zlen l = Z.of_N n /\ Forall (typed t) l.
+Proof.
+  unfold typed. cbn [has_type]. destruct v; try discriminate. intros H. apply andb_true_iff in H. destruct H as [H1 H2].
+  exists l. split; [reflexivity|]. split; [lia|]. apply forallb_Forall. exact H2.
+Qed.
+
+Lemma typed_list_vec t v : typed (TVec t) v -> exists l, v = VList l /\ Forall (typed t) l.
+Proof.
+  unfold typed. cbn [has_type]. destruct v; try discriminate. intros H.
+  exists l. split; [reflexivity|]. apply forallb_Forall. exact H.
+Qed.
+
+Lemma typed_tuple ts v : typed (TTuple ts) v -> exists vs, v = VList vs /\ Forall2 typed ts vs.
+Proof.
+  unfold typed at 1. cbn [has_type]. destruct v; try discriminate. intros H. exists l. split; [reflexivity|].
+  apply apply_all_Forall2. exact H.
+Qed.
+
+Lemma typed_struct ts v : typed (TStruct ts) v -> exists vs, v = VList vs /\ Forall2 typed ts vs.
+Proof.
+  unfold typed at 1. cbn [has_type]. destruct v; try discriminate. intros H. exists l. split; [reflexivity|].
+  apply apply_all_Forall2. exact H.
+Qed.
+
+Lemma typed_enum vs v : typed (TEnum vs) v ->
+  exists d l fs, v = VEnum d l /\ znth_opt d vs = Some fs /\ Forall2 typed fs l.
+Proof.
+  unfold typed at 1. cbn [has_type]. destruct v; try discriminate. rewrite znth_opt_map.
+  destruct (znth_opt d vs) as [fs|] eqn:E; cbn [option_map]; [|discriminate]. intros H.
+  exists d, l, fs. split; [reflexivity|]. split; [exact E|]. apply apply_all_Forall2. exact H.
+Qed.
+
+Lemma typed_u32s n v : typed (TU32s n) v ->
+  exists l, v = VList l /\ zlen l = Z.of_N n /\ Forall (fun v => exists z, v = VInt z /\ 0 <= z < 4294967296) l.
+Proof.
+  unfold typed. cbn [has_type]. destruct v; try discriminate. intros H. apply andb_true_iff in H. destruct H as [H1 H2].
+  exists l. split; [reflexivity|]. split; [lia|]. apply forallb_Forall in H2.
+  eapply Forall_impl; [|exact H2]. intros a Ha. eapply typed_int; eauto.
+Qed.
+
+Lemma encode_enum vs d l fs : znth_opt d vs = Some fs ->
+  encode (TEnum vs) (VEnum d l) = d :: enc_fields (rev (encs fs)) (rev l).
+Proof.
+  intros H. cbn [encode]. rewrite (znth_opt_map (fun fs => map (fun t => (static_length t, encode t)) fs)), H. reflexivity.
+Qed.
+
+Lemma u32s_flat_len l :
+  Forall (fun v => exists z, v = VInt z /\ 0 <= z < 4294967296) l ->
+  zlen (flat_map (fun v => match v with VInt z => [z] | _ => [] end) l) = zlen l.
+Proof.
+  intros H. rewrite (zlen_flat_map_const _ 1); [lia|]. eapply Forall_impl; [|exact H].
+  intros a (z & -> & _). reflexivity.
+Qed.
+
+Lemma enum_static_length_inv vs n :
+  enum_static_length vs (map (fun fs => sum_opt (map static_length fs)) vs) = Some n ->
+  forall fs, In fs vs -> sum_opt (map static_length fs) = Some (n - 1).
+Proof.
+  unfold enum_static_length. destruct (forallb is_nil vs) eqn:E.
+  - intros H fs Hin. inversion H; subst. rewrite forallb_forall in E. apply E in Hin. apply is_nil_true in Hin. subst. reflexivity.
+  - destruct (map (fun fs => sum_opt (map static_length fs)) vs) as [|o r] eqn:Em.
+    + destruct vs; [discriminate E|discriminate Em].
+    + destruct o as [l0|]; [|discriminate].
+      destruct (forallb opt_is_some (Some l0 :: r) && forallb (opt_z_eqb (Some l0)) (Some l0 :: r)) eqn:Ef; [|discriminate].
+      intros H fs Hin. inversion H; subst. apply andb_true_iff in Ef. destruct Ef as [_ Ef].
+      rewrite <- Em in Ef. rewrite forallb_forall in Ef.
+      specialize (Ef (sum_opt (map static_length fs))). 
+      assert (Hi : In (sum_opt (map static_length fs)) (map (fun fs => sum_opt (map static_length fs)) vs)).
+      { apply in_map_iff. exists fs. split; [reflexivity|exact Hin]. }
+      apply Ef in Hi. destruct (sum_opt (map static_length fs)); cbn in Hi; [|discriminate].
+      f_equal. lia.
+Qed.
+
+Theorem static_len : forall t, static_len_at t.
+Proof.
+  apply ty_nested_ind; unfold static_len_at.
+  1-6: intros n v H Ht; cbn in H; inversion H; subst; apply typed_int in Ht; destruct Ht as (z & -> & _); reflexivity.
+  - intros n v H Ht. cbn in H. inversion H; subst. unfold typed in Ht. destruct v; try discriminate. reflexivity.
+  - intros n v H Ht. cbn in H. inversion H; subst. reflexivity.
+  - intros t IH n v H Ht. cbn [static_length] in H. cbn [encode]. apply IH; assumption.
+  - intros t _ n v H. discriminate.
+  - intros t _ n v H. discriminate.
+  - intros k t IH n v H Ht. cbn [static_length] in H. destruct (static_length t) as [w|] eqn:Ew; [|discriminate].
+    inversion H; subst. apply typed_list_array in Ht. destruct Ht as (l & -> & Hl & Hall). cbn [encode].
+    unfold enc_list. rewrite Ew. rewrite (zlen_flat_map_const _ w); [lia|].
+    eapply Forall_impl; [|exact Hall]. intros a Ha. cbn [with_prefix]. apply IH; [reflexivity|exact Ha].
+  - intros ts IH n v H Ht. apply typed_tuple in Ht. destruct Ht as (vs & -> & HT). cbn [static_length] in H. cbn [encode].
+    apply (record_static_len ts vs n IH H HT).
+  - intros t _ n v H. discriminate.
+  - intros k n v H Ht. cbn in H. inversion H; subst. apply typed_u32s in Ht. destruct Ht as (l & -> & Hl & Hall).
+    cbn [encode]. rewrite u32s_flat_len; assumption.
+  - intros ts IH n v H Ht. apply typed_struct in Ht. destruct Ht as (vs & -> & HT). cbn [static_length] in H. cbn [encode].
+    apply (record_static_len ts vs n IH H HT).
+  - intros vs IH n v H Ht. apply typed_enum in Ht. destruct Ht as (d & l & fs & -> & Hd & HT).
+    cbn [static_length] in H. rewrite (encode_enum vs d l fs Hd). rewrite zlen_cons.
+    pose proof (enum_static_length_inv vs n H fs (znth_opt_In _ _ _ Hd)) as Hs.
+    rewrite Forall_forall in IH. specialize (IH fs (znth_opt_In _ _ _ Hd)).
+    rewrite (record_static_len fs l (n - 1) IH Hs HT). lia.
+Qed.
+
+Lemma sum_opt_nonneg l n : Forall (fun o => forall a, o = Some a -> 0 <= a) l -> sum_opt l = Some n -> 0 <= n.
+Proof.
+  intros H. revert n. induction H as [|o r Ho _ IH]; intros n Hs; cbn [sum_opt] in Hs.
+  - inversion Hs. lia.
+  - destruct o as [a|]; [|discriminate]. destruct (sum_opt r) as [b|]; [|discriminate]. inversion Hs.
+    specialize (Ho a eq_refl). specialize (IH b eq_refl). lia.
+Qed.
+
+Lemma sum_opt_map_nonneg ts n :
+  Forall (fun t => forall a, static_length t = Some a -> 0 <= a) ts -> sum_opt (map static_length ts) = Some n -> 0 <= n.
+Proof. intros H. apply sum_opt_nonneg. apply Forall_map. exact H. Qed.
+
+Theorem static_length_nonneg : forall t n, static_length t = Some n -> 0 <= n.
+Proof.
+  apply (ty_nested_ind (fun t => forall n, static_length t = Some n -> 0 <= n)); cbn [static_length].
+  1-8: intros n H; inversion H; lia.
+  - intros t IH. exact IH.
+  - discriminate.
+  - discriminate.
+  - intros k t IH n H. destruct (static_length t) as [w|]; [|discriminate]. inversion H. specialize (IH w eq_refl). lia.
+  - intros ts IH n H. eapply sum_opt_map_nonneg; eauto.
+  - discriminate.
+  - intros k n H. inversion H. lia.
+  - intros ts IH n H. eapply sum_opt_map_nonneg; eauto.
+  - intros vs IH n H. unfold enum_static_length in H. destruct (forallb is_nil vs); [inversion H; lia|].
+    destruct vs as [|fs r]; cbn [map] in H; [inversion H; lia|].
+    destruct (sum_opt (map static_length fs)) as [l0|] eqn:E; [|discriminate].
+    match type of H with (if ?c then _ else _) = _ => destruct c end; [|discriminate]. inversion H.
+    inversion IH as [|? ? Hfs _]; subst. pose proof (sum_opt_map_nonneg fs l0 Hfs E). lia.
+Qed.
+
+(* ================================================================ roundtrip *)
+Definition B64 : Z := 18446744073709551616.
+Definition roundtrip_at (chk : bool) (t : ty) : Prop :=
+  forall v, typed t v -> zlen (encode t v) < B64 -> decode chk t (encode t v) = Ok v.
+
+Lemma dec_fields_roundtrip chk ts vs :
+  Forall (roundtrip_at chk) ts -> Forall2 typed ts vs -> zlen (enc_fields (encs ts) vs) < B64 ->
+  dec_fields (decs chk ts) (enc_fields (encs ts) vs) = Ok vs.
+Proof.
+  intros HQ HT. revert HQ. induction HT as [|t v ts vs Htv _ IH]; intros HQ Hlen; [reflexivity|].
+  inversion HQ as [|? ? Ht Hr]; subst. cbn [encs decs map enc_fields dec_fields] in *.
+  fold (encs ts) in *. fold (decs chk ts).
+  rewrite zlen_app in Hlen. pose proof (zlen_nonneg (enc_fields (encs ts) vs)) as Hnn.
+  pose proof (zlen_nonneg (encode t v)) as Hnn'.
+  destruct (static_length t) as [a|] eqn:Ea; cbn [with_prefix field_header] in *.
+  - pose proof (static_len t a v Ea Htv) as Ha. rewrite zlen_app.
+    destruct (zlen (encode t v) + zlen (enc_fields (encs ts) vs) <? a) eqn:E; [blia|].
+    rewrite <- Ha, ztake_app_exact, zdrop_app_exact. rewrite (Ht v Htv) by blia. cbn [obind].
+    rewrite IH by (assumption || blia). reflexivity.
+  - rewrite zlen_cons in Hlen. cbn [app]. rewrite zlen_app.
+    destruct (zlen (encode t v) + zlen (enc_fields (encs ts) vs) <? zlen (encode t v)) eqn:E; [blia|].
+    rewrite ztake_app_exact, zdrop_app_exact. rewrite (Ht v Htv) by blia. cbn [obind].
+    rewrite IH by (assumption || blia). reflexivity.
+Qed.
+
+Lemma dec_record_roundtrip chk ts vs :
+  Forall (roundtrip_at chk) ts -> Forall2 typed ts vs -> zlen (enc_fields (rev (encs ts)) (rev vs)) < B64 ->
+  dec_record (decs chk ts) (enc_fields (rev (encs ts)) (rev vs)) = Ok (VList vs).
+Proof.
+  intros HQ HT Hlen. unfold dec_record. rewrite decs_rev. rewrite encs_rev in *.
+  rewrite dec_fields_roundtrip; [cbn [obind]; rewrite rev_involutive; reflexivity|apply Forall_rev; exact HQ|apply Forall2_rev; exact HT|exact Hlen].
+Qed.
+
+Lemma chunks_exact_concat w cs : 0 < w -> Forall (fun c => zlen c = w) cs ->
+  forall fuel, (length (concat cs) < fuel)%nat -> chunks_exact fuel w (concat cs) = cs.
+Proof.
+  intros Hw. induction 1 as [|c r Hc _ IH]; intros fuel Hf.
+  - destruct fuel; [blia|]. cbn [concat chunks_exact zlen]. destruct (0 <? w) eqn:E; [reflexivity|lia].
+  - destruct fuel; [blia|]. cbn [concat chunks_exact]. rewrite zlen_app. pose proof (zlen_nonneg (concat r)).
+    destruct (zlen c + zlen (concat r) <? w) eqn:E; [blia|].
+    assert (E1 : ztake w (c ++ concat r) = c) by (rewrite <- Hc; apply ztake_app_exact).
+    assert (E2 : zdrop w (c ++ concat r) = concat r) by (rewrite <- Hc; apply zdrop_app_exact).
+    rewrite E1, E2. f_equal. apply IH. cbn [concat] in Hf. rewrite app_length in Hf.
+    assert (0 < length c)%nat by (rewrite zlen_length in Hc; lia). lia.
+Qed.
+
+Lemma zlen_flat_map_In {A B} (f : A -> list B) l v : In v l -> zlen (f v) <= zlen (flat_map f l).
+Proof.
+  induction l as [|x r IH]; intros H; [destruct H|]. cbn [flat_map]. rewrite zlen_app.
+  pose proof (zlen_nonneg (f x)). pose proof (zlen_nonneg (flat_map f r)).
+  destruct H as [->|H]; [blia|]. apply IH in H. lia.
+Qed.
+
+Lemma all_equal_repeat {A} (x : A) l : Forall (fun y => y = x) l -> l = repeat x (length l).
+Proof. induction 1 as [|y r Hy _ IH]; [reflexivity|]. cbn [length repeat]. rewrite Hy, <- IH. reflexivity. Qed.
+
+Lemma dec_list_static_roundtrip w dec enc l : 0 <= w ->
+  Forall (fun v => zlen (enc v) = w /\ dec (enc v) = Ok v) l -> zlen (flat_map enc l) < B64 ->
+  dec_list_static w dec (zlen l) (flat_map enc l) = Ok l.
+Proof.
+  intros Hw0 H Hlen. assert (Hw : Forall (fun v => zlen (enc v) = w) l) by (eapply Forall_impl; [|exact H]; intros a Ha; apply Ha).
+  pose proof (zlen_flat_map_const enc w l Hw) as Hz. pose proof (zlen_nonneg l) as Hl.
+  unfold dec_list_static. unfold B64 in Hlen.
+  destruct (18446744073709551616 <=? zlen l * w) eqn:E1; [blia|].
+  destruct (zlen (flat_map enc l) <? zlen l * w) eqn:E2; [blia|].
+  destruct (zlen l * w <? zlen (flat_map enc l)) eqn:E3; [blia|].
+  destruct (w =? 0) eqn:E4.
+  - destruct (zlen l <=? 0) eqn:E5.
+    + rewrite (zlen_zero_nil l) by blia. reflexivity.
+    + destruct l as [|v0 l']; [cbn [zlen] in E5; lia|]. inversion H as [|? ? [H0 H0'] Hr]; subst.
+      assert (E0 : enc v0 = []) by (apply zlen_zero_nil; lia). rewrite E0 in H0'. rewrite H0'. cbn [obind].
+      rewrite zrepeat_repeat, zlen_length, Nat2Z.id. f_equal. symmetry. apply all_equal_repeat.
+      constructor; [reflexivity|]. eapply Forall_impl; [|exact Hr]. intros a [Ha Ha'].
+      assert (Ea : enc a = []) by (apply zlen_zero_nil; lia). rewrite Ea in Ha'. congruence.
+  - rewrite flat_map_concat_map. rewrite chunks_exact_concat.
+    + rewrite <- (map_id l) at 2. apply map_outcome_map. eapply Forall_impl; [|exact H]. intros a Ha. apply Ha.
+    + blia.
+    + apply Forall_map. exact Hw.
+    + lia.
+Qed.
+
+Definition prefixed (enc : value -> list Z) (v : value) : list Z := zlen (enc v) :: enc v.
+
+Lemma dec_list_dyn_roundtrip chk dec enc l :
+  Forall (fun v => dec (enc v) = Ok v) l ->
+  forall fuel tot idx,
+    (length (flat_map (prefixed enc) l) <= fuel)%nat -> tot = idx + zlen (flat_map (prefixed enc) l) -> 0 <= idx -> tot < B64 ->
+    dec_list_dyn chk fuel dec tot (zlen l) idx (flat_map (prefixed enc) l) = Ok l.
+Proof.
+  induction 1 as [|v l' Hv _ IH]; intros fuel tot idx Hf Htot Hidx Hb.
+  - destruct fuel; reflexivity.
+  - cbn [flat_map] in *. unfold prefixed at 1 in Hf. unfold prefixed at 1 in Htot. unfold prefixed at 1.
+    cbn [app length] in *. rewrite zlen_cons in Htot. rewrite zlen_app in Htot. rewrite app_length in Hf.
+    pose proof (zlen_nonneg l'). pose proof (zlen_nonneg (enc v)). pose proof (zlen_nonneg (flat_map (prefixed enc) l')).
+    destruct fuel as [|f]; [lia|]. cbn [dec_list_dyn]. rewrite zlen_cons. unfold B64 in Hb.
+    destruct (1 + zlen l' <=? 0) eqn:E0; [blia|].
+    destruct (18446744073709551616 <=? idx + 1 + zlen (enc v)) eqn:E1; [blia|].
+    destruct (tot <? idx + 1 + zlen (enc v)) eqn:E2; [blia|].
+    rewrite ztake_app_exact, zdrop_app_exact, Hv. cbn [obind].
+    replace (1 + zlen l' - 1) with (zlen l') by lia. rewrite IH; [reflexivity|lia|lia|lia|unfold B64; lia].
+Qed.
+
+Lemma dec_list_roundtrip chk t l :
+  roundtrip_at chk t -> Forall (typed t) l -> zlen (enc_list (static_length t) (encode t) l) < B64 ->
+  dec_list chk (static_length t) (decode chk t) (zlen l) (enc_list (static_length t) (encode t) l) = Ok l.
+Proof.
+  intros HQ HT Hlen. unfold dec_list, enc_list in *. destruct (static_length t) as [w|] eqn:Ew; cbn [with_prefix] in *.
+  - apply dec_list_static_roundtrip; [eapply static_length_nonneg; exact Ew| |exact Hlen].
+    rewrite Forall_forall in *. intros v Hin. split; [apply static_len; [exact Ew|apply HT; exact Hin]|].
+    apply HQ; [apply HT; exact Hin|]. eapply Z.le_lt_trans; [|exact Hlen].
+    apply (zlen_flat_map_In (fun v0 => encode t v0) l v Hin).
+  - change (fun v => zlen (encode t v) :: encode t v) with (prefixed (encode t)) in *.
+    apply dec_list_dyn_roundtrip; [|lia|lia|lia|exact Hlen].
+    rewrite Forall_forall in *. intros v Hin. apply HQ; [apply HT; exact Hin|].
+    pose proof (zlen_flat_map_In (prefixed (encode t)) l v Hin) as Hle. unfold prefixed at 1 in Hle. rewrite zlen_cons in Hle. lia.
+Qed.
+
+Lemma strip_zeros_id l : last_nonzero l = true -> strip_zeros l = l.
+Proof.
+  unfold last_nonzero. induction l as [|c r IH]; [reflexivity|]. cbn [rev strip_zeros]. intros H.
+  destruct r as [|c' r'].
+  - cbn in H. cbn [strip_zeros]. destruct (value_zero c); [discriminate|reflexivity].
+  - rewrite IH.
+    + reflexivity.
+    + destruct (rev (c' :: r')) as [|x y] eqn:E; [|exact H].
+      apply (f_equal (@length _)) in E. rewrite rev_length in E. discriminate.
+Qed.
+
+Lemma limbs_u64 z : 0 <= z < 18446744073709551616 ->
+  limb z 0 + 4294967296 * (limb z 1 + 4294967296 * 0) = z /\ 0 <= limb z 0 <= 4294967295 /\ 0 <= limb z 1 <= 4294967295.
+Proof.
+  intros H. unfold limb. change (2 ^ (32 * 0)) with 1. change (2 ^ (32 * 1)) with 4294967296. lia.
+Qed.
+
+Lemma limbs_u128 z : 0 <= z < 340282366920938463463374607431768211456 ->
+  limb z 0 + 4294967296 * (limb z 1 + 4294967296 * (limb z 2 + 4294967296 * (limb z 3 + 4294967296 * 0))) = z
+  /\ 0 <= limb z 0 <= 4294967295 /\ 0 <= limb z 1 <= 4294967295 /\ 0 <= limb z 2 <= 4294967295 /\ 0 <= limb z 3 <= 4294967295.
+Proof.
+  intros H. unfold limb. change (2 ^ (32 * 0)) with 1. change (2 ^ (32 * 1)) with 4294967296.
+  change (2 ^ (32 * 2)) with (4294967296 * 4294967296). change (2 ^ (32 * 3)) with (4294967296 * 4294967296 * 4294967296).
+  rewrite <- !Z.div_div by lia. rewrite Z.div_1_r.
+  set (a := z / 4294967296). set (b := a / 4294967296). set (c := b / 4294967296).
+  assert (z = 4294967296 * a + z mod 4294967296) by (apply Z.div_mod; lia).
+  assert (a = 4294967296 * b + a mod 4294967296) by (apply Z.div_mod; lia).
+  assert (b = 4294967296 * c + b mod 4294967296) by (apply Z.div_mod; lia).
+  assert (0 <= z mod 4294967296 < 4294967296) by (apply Z.mod_pos_bound; lia).
+  assert (0 <= a mod 4294967296 < 4294967296) by (apply Z.mod_pos_bound; lia).
+  assert (0 <= b mod 4294967296 < 4294967296) by (apply Z.mod_pos_bound; lia).
+  assert (0 <= c < 4294967296) by lia.
+  rewrite (Z.mod_small c) by lia. lia.
+Qed.
+
+Lemma dec_fields_rev_roundtrip chk ts vs :
+  Forall (roundtrip_at chk) ts -> Forall2 typed ts vs -> zlen (enc_fields (rev (encs ts)) (rev vs)) < B64 ->
+  dec_fields (rev (decs chk ts)) (enc_fields (rev (encs ts)) (rev vs)) = Ok (rev vs).
+Proof.
+  intros HQ HT Hlen. rewrite decs_rev. rewrite encs_rev in *.
+  apply dec_fields_roundtrip; [apply Forall_rev; exact HQ|apply Forall2_rev; exact HT|exact Hlen].
+Qed.
+
+Lemma u32s_roundtrip l :
+  Forall (fun v => exists z, v = VInt z /\ 0 <= z < 4294967296) l ->
+  map_outcome (fun x => dec_small 4294967295 [x]) (flat_map (fun v => match v with VInt z => [z] | _ => [] end) l) = Ok l.
+Proof.
+  induction 1 as [|v r (z & -> & Hz) _ IH]; [reflexivity|]. cbn [flat_map app map_outcome].
+  change (dec_small 4294967295 [z]) with (if 4294967295 <? z then @Err value else Ok (VInt z)).
+  destruct (4294967295 <? z) eqn:E; [blia|]. cbn [obind]. rewrite IH. reflexivity.
+Qed.
+
+Lemma typed_poly t v : typed (TPoly t) v -> exists l, v = VList l /\ Forall (typed t) l /\ last_nonzero l = true.
+Proof.
+  unfold typed. cbn [has_type]. destruct v; try discriminate. intros H. apply andb_true_iff in H. destruct H as [H1 H2].
+  exists l. split; [reflexivity|]. split; [apply forallb_Forall; exact H1|exact H2].
+Qed.
+
+Lemma typed_option t v : typed (TOption t) v -> v = VNone \/ exists w, v = VSome w /\ typed t w.
+Proof.
+  unfold typed. cbn [has_type]. destruct v; try discriminate; intros H; [left; reflexivity|right; eauto].
+Qed.
+
+Theorem roundtrip chk : forall t, roundtrip_at chk t.
+Proof.
+  apply ty_nested_ind; unfold roundtrip_at.
+  - (* Bfe *) intros v Ht _. apply typed_int in Ht. destruct Ht as (z & -> & _). reflexivity.
+  - (* U8 *) intros v Ht _. apply typed_int in Ht. destruct Ht as (z & -> & Hz). cbn [encode decode dec_small].
+    destruct (255 <? z) eqn:E; [blia|reflexivity].
+  - intros v Ht _. apply typed_int in Ht. destruct Ht as (z & -> & Hz). cbn [encode decode dec_small].
+    destruct (65535 <? z) eqn:E; [blia|reflexivity].
+  - intros v Ht _. apply typed_int in Ht. destruct Ht as (z & -> & Hz). cbn [encode decode dec_small].
+    destruct (4294967295 <? z) eqn:E; [blia|reflexivity].
+  - (* U64 *) intros v Ht _. apply typed_int in Ht. destruct Ht as (z & -> & Hz).
+    destruct (limbs_u64 z Hz) as (Hv & H0 & H1). cbn [encode decode]. unfold dec_big. cbn [is_nil zlen existsb limbs_value].
+    change (1 + (1 + 0) <? 2) with false. change (2 <? 1 + (1 + 0)) with false. cbv iota.
+    destruct (4294967295 <? limb z 0) eqn:E0; [blia|]. destruct (4294967295 <? limb z 1) eqn:E1; [blia|].
+    cbn [orb]. rewrite Hv. reflexivity.
+  - (* U128 *) intros v Ht _. apply typed_int in Ht. destruct Ht as (z & -> & Hz).
+    destruct (limbs_u128 z Hz) as (Hv & H0 & H1 & H2 & H3). cbn [encode decode]. unfold dec_big. cbn [is_nil zlen existsb limbs_value].
+    change (1 + (1 + (1 + (1 + 0))) <? 4) with false. change (4 <? 1 + (1 + (1 + (1 + 0)))) with false. cbv iota.
+    destruct (4294967295 <? limb z 0) eqn:E0; [blia|]. destruct (4294967295 <? limb z 1) eqn:E1; [blia|].
+    destruct (4294967295 <? limb z 2) eqn:E2; [blia|]. destruct (4294967295 <? limb z 3) eqn:E3; [blia|].
+    cbn [orb]. rewrite Hv. reflexivity.
+  - (* Bool *) intros v Ht _. unfold typed in Ht. destruct v; try discriminate. destruct b; reflexivity.
+  - (* Phantom *) intros v Ht _. unfold typed in Ht. destruct v; try discriminate. reflexivity.
+  - (* Box *) intros t IH v Ht Hl. cbn [encode decode] in *. apply IH; assumption.
+  - (* Option *) intros t IH v Ht Hl. apply typed_option in Ht. destruct Ht as [->|(w & -> & Hw)]; [reflexivity|].
+    cbn [encode decode dec_option] in *. change (1 =? 0) with false. change (1 =? 1) with true. cbv iota.
+    rewrite zlen_cons in Hl. rewrite IH; [reflexivity|exact Hw|lia].
+  - (* Vec *) intros t IH v Ht Hl. apply typed_list_vec in Ht. destruct Ht as (l & -> & Hall).
+    cbn [encode decode dec_vec] in *. rewrite zlen_cons in Hl. rewrite dec_list_roundtrip; [reflexivity|exact IH|exact Hall|lia].
+  - (* Array *) intros n t IH v Ht Hl. apply typed_list_array in Ht. destruct Ht as (l & -> & Hn & Hall).
+    cbn [encode decode] in *. unfold dec_array.
+    destruct ((0 <? Z.of_N n) && is_nil (enc_list (static_length t) (encode t) l) && negb (opt_z_eqb (static_length t) (Some 0))) eqn:G.
+    + exfalso. apply andb_true_iff in G. destruct G as [G G3]. apply andb_true_iff in G. destruct G as [G1 G2].
+      apply is_nil_true in G2. destruct l as [|v0 l']; [cbn [zlen] in Hn; blia|].
+      inversion Hall as [|? ? Hv0 _]; subst. unfold enc_list in G2. cbn [flat_map] in G2. apply app_eq_nil in G2. destruct G2 as [G2 _].
+      destruct (static_length t) as [w|] eqn:Ew; cbn [with_prefix] in G2; [|discriminate].
+      pose proof (static_len t w v0 Ew Hv0) as Hw. rewrite G2 in Hw. cbn [zlen] in Hw. subst w. discriminate.
+    + rewrite <- Hn. rewrite dec_list_roundtrip; [|exact IH|exact Hall|exact Hl]. cbn [obind]. rewrite Z.eqb_refl. reflexivity.
+  - (* Tuple *) intros ts IH v Ht Hl. apply typed_tuple in Ht. destruct Ht as (vs & -> & HT). cbn [encode decode] in *.
+    apply (dec_record_roundtrip chk ts vs IH HT Hl).
+  - (* Poly *) intros t IH v Ht Hl. apply typed_poly in Ht. destruct Ht as (l & -> & Hall & Hnz).
+    cbn [encode decode] in *. rewrite (strip_zeros_id l Hnz) in *. unfold dec_poly. rewrite !zlen_cons in *.
+    rewrite Z.add_comm, Z.eqb_refl. cbn [dec_vec]. rewrite dec_list_roundtrip; [|exact IH|exact Hall|lia]. cbn [obind].
+    rewrite Hnz. reflexivity.
+  - (* U32s *) intros n v Ht Hl. apply typed_u32s in Ht. destruct Ht as (l & -> & Hn & Hall). cbn [encode decode] in *.
+    unfold dec_u32s. rewrite (u32s_flat_len l Hall). 
+    destruct ((0 <? Z.of_N n) && is_nil (flat_map (fun v => match v with VInt z => [z] | _ => [] end) l)) eqn:G.
+    + exfalso. apply andb_true_iff in G. destruct G as [G1 G2]. apply is_nil_true in G2.
+      pose proof (u32s_flat_len l Hall) as Hz. rewrite G2 in Hz. cbn [zlen] in Hz. blia.
+    + destruct (zlen l <? Z.of_N n) eqn:E1; [blia|]. destruct (Z.of_N n <? zlen l) eqn:E2; [blia|].
+      rewrite (u32s_roundtrip l Hall). reflexivity.
+  - (* Struct *) intros ts IH v Ht Hl. apply typed_struct in Ht. destruct Ht as (vs & -> & HT). cbn [encode decode] in *.
+    apply (dec_record_roundtrip chk ts vs IH HT Hl).
+  - (* Enum *) intros vs IH v Ht Hl. apply typed_enum in Ht. destruct Ht as (d & l & fs & -> & Hd & HT).
+    rewrite (encode_enum vs d l fs Hd) in *. cbn [decode dec_enum].
+    rewrite (znth_opt_map (fun fs => map (fun t => (static_length t, decode chk t)) fs)), Hd. cbn [option_map].
+    fold (decs chk fs). rewrite zlen_cons in Hl. rewrite Forall_forall in IH.
+    rewrite dec_fields_rev_roundtrip; [|apply IH; eapply znth_opt_In; exact Hd|exact HT|lia].
+    cbn [obind]. rewrite rev_involutive. reflexivity.
+Qed.
+
+(* ================================================================ unique *)
+Definition canon (s : list Z) : Prop := Forall (fun x => 0 <= x < P) s.
+
+Lemma canon_seq_canon s : canon_seq s = true <-> canon s.
+Proof.
+  unfold canon_seq, canon. rewrite forallb_Forall. split; intros H; (eapply Forall_impl; [|exact H]); cbv beta; intros a Ha.
+  - apply andb_true_iff in Ha. destruct Ha. blia.
+  - apply andb_true_iff. split; [apply Z.leb_le|apply Z.ltb_lt]; lia.
+Qed.
+
+Lemma canon_ztake k s : canon s -> canon (ztake k s).
+Proof. unfold canon. intros H. rewrite <- (ztake_zdrop k s) in H. apply Forall_app in H. apply H. Qed.
+Lemma canon_zdrop k s : canon s -> canon (zdrop k s).
+Proof. unfold canon. intros H. rewrite <- (ztake_zdrop k s) in H. apply Forall_app in H. apply H. Qed.
+Lemma canon_cons x s : canon (x :: s) -> 0 <= x < P /\ canon s.
+Proof. unfold canon. intros H. inversion H; subst. split; assumption. Qed.
+Lemma canon_nil : canon []. Proof. constructor. Qed.
+
+Definition unique_at (chk : bool) (t : ty) : Prop :=
+  forall s v, canon s -> decode chk t s = Ok v -> typed t v /\ encode t v = s.
+
+Lemma dec_fields_unique chk ts : Forall (unique_at chk) ts ->
+  forall s vs, canon s -> dec_fields (decs chk ts) s = Ok vs -> Forall2 typed ts vs /\ enc_fields (encs ts) vs = s.
+Proof.
+  induction 1 as [|t ts Ht _ IH]; intros s vs Hc H.
+  - cbn [decs map dec_fields] in H. destruct (is_nil s) eqn:E; [|discriminate]. apply is_nil_true in E. inversion H; subst.
+    split; [constructor|reflexivity].
+  - cbn [decs map dec_fields] in H. fold (decs chk ts) in H.
+    destruct (field_header (static_length t) s) as [[len s1]|] eqn:Eh; [|discriminate].
+    destruct (zlen s1 <? len) eqn:El; [discriminate|].
+    apply obind_ok in H. destruct H as (v & Hv & H). apply obind_ok in H. destruct H as (vs' & Hvs & H). inversion H; subst.
+    assert (Hc1 : canon s1 /\ (static_length t = None -> 0 <= len /\ s = len :: s1) /\ (static_length t <> None -> s = s1)).
+    { unfold field_header in Eh. destruct (static_length t).
+      - inversion Eh; subst. split; [exact Hc|]. split; [discriminate|reflexivity].
+      - destruct s as [|x s']; [discriminate|]. inversion Eh; subst. apply canon_cons in Hc. destruct Hc as [Hx Hc].
+        split; [exact Hc|]. split; [intros _; split; [lia|reflexivity]|congruence]. }
+    destruct Hc1 as (Hc1 & Hnone & Hsome).
+    destruct (Ht (ztake len s1) v (canon_ztake _ _ Hc1) Hv) as [Htv Hev].
+    destruct (IH (zdrop len s1) vs' (canon_zdrop _ _ Hc1) Hvs) as [HT Hes].
+    split; [constructor; assumption|]. cbn [encs map enc_fields]. fold (encs ts). rewrite Hev, Hes.
+    destruct (static_length t) as [a|] eqn:Ea; cbn [with_prefix].
+    + rewrite ztake_zdrop. symmetry. apply Hsome. discriminate.
+    + destruct (Hnone eq_refl) as [Hl ->]. rewrite zlen_ztake by blia. cbn [app]. rewrite ztake_zdrop. reflexivity.
+Qed.
+
+Lemma dec_fields_rev_unique chk ts : Forall (unique_at chk) ts ->
+  forall s vs, canon s -> dec_fields (rev (decs chk ts)) s = Ok vs ->
+  Forall2 typed ts (rev vs) /\ enc_fields (rev (encs ts)) (rev (rev vs)) = s.
+Proof.
+  intros HQ s vs Hc H. rewrite decs_rev in H. apply dec_fields_unique in H; [|apply Forall_rev; exact HQ|exact Hc].
+  destruct H as [HT He]. split.
+  - apply Forall2_rev in HT. rewrite rev_involutive in HT. exact HT.
+  - rewrite rev_involutive, encs_rev. exact He.
+Qed.
+
+Lemma chunks_exact_spec w : 0 < w -> forall fuel s n, 0 <= n -> zlen s = n * w -> (length s < fuel)%nat ->
+  concat (chunks_exact fuel w s) = s /\ zlen (chunks_exact fuel w s) = n.
+Proof.
+  intros Hw. induction fuel as [|f IH]; intros s n Hn Hs Hf; [lia|]. cbn [chunks_exact].
+  destruct (zlen s <? w) eqn:E.
+  - assert (n = 0) by (bool2prop; nia). subst n. rewrite (zlen_zero_nil s) by lia. split; reflexivity.
+  - assert (1 <= n) by (bool2prop; nia). cbn [concat]. rewrite zlen_cons.
+    destruct (IH (zdrop w s) (n - 1)) as [H1 H2]; [lia| | |].
+    + rewrite zlen_zdrop by blia. lia.
+    + pose proof (zlen_zdrop w s ltac:(blia)) as Hz. rewrite !zlen_length in Hz. rewrite zlen_length in Hs. lia.
+    + rewrite H1, H2, ztake_zdrop. split; [reflexivity|lia].
+Qed.
+
+Lemma canon_concat cs : canon (concat cs) -> Forall canon cs.
+Proof.
+  induction cs as [|c r IH]; intros H; [constructor|]. cbn [concat] in H. apply Forall_app in H. destruct H.
+  constructor; [assumption|]. apply IH. assumption.
+Qed.
+
+Lemma flat_map_repeat_nil {A B} (f : A -> list B) x k : f x = [] -> flat_map f (repeat x k) = [].
+Proof. intros H. induction k as [|k IH]; [reflexivity|]. cbn [repeat flat_map]. rewrite H, IH. reflexivity. Qed.
+
+Lemma dec_list_static_unique w dec enc (Pv : value -> Prop) n s l :
+  0 <= w -> 0 <= n -> canon s -> (forall c v, canon c -> dec c = Ok v -> Pv v /\ enc v = c) ->
+  dec_list_static w dec n s = Ok l -> Forall Pv l /\ flat_map enc l = s /\ zlen l = n.
+Proof.
+  intros Hw Hn Hc Hd. unfold dec_list_static.
+  destruct (18446744073709551616 <=? n * w) eqn:E1; [discriminate|].
+  destruct (zlen s <? n * w) eqn:E2; [discriminate|]. destruct (n * w <? zlen s) eqn:E3; [discriminate|].
+  assert (Hs : zlen s = n * w) by blia.
+  destruct (w =? 0) eqn:E4.
+  - assert (w = 0) by blia. subst w. rewrite (zlen_zero_nil s) by lia.
+    destruct (n <=? 0) eqn:E5.
+    + intros H. inversion H; subst. split; [constructor|]. split; [reflexivity|cbn [zlen]; blia].
+    + intros H. apply obind_ok in H. destruct H as (v & Hv & H). inversion H; subst.
+      destruct (Hd [] v canon_nil Hv) as [Hp He]. rewrite zrepeat_repeat. split; [|split].
+      * apply Forall_forall. intros x Hx. apply repeat_spec in Hx. subst. exact Hp.
+      * apply flat_map_repeat_nil. exact He.
+      * rewrite zlen_length, repeat_length. lia.
+  - intros H. apply map_outcome_ok in H.
+    destruct (chunks_exact_spec w ltac:(blia) (S (length s)) s n Hn Hs ltac:(lia)) as [Hcc Hcl].
+    set (cs := chunks_exact (S (length s)) w s) in *.
+    rewrite <- Hcc in Hc. apply canon_concat in Hc. rewrite <- Hcc. rewrite <- Hcl. clear Hcc Hcl Hs E1 E2 E3. clearbody cs.
+    induction H as [|c v cs l Hcv _ IH]; [split; [constructor|split; reflexivity]|].
+    inversion Hc as [|? ? Hc0 Hcr]; subst. destruct (IH Hcr) as (I1 & I2 & I3). destruct (Hd c v Hc0 Hcv) as [Hp He].
+    split; [constructor; assumption|]. cbn [flat_map concat]. rewrite He, I2, !zlen_cons, I3. split; reflexivity.
+Qed.
+
+Lemma dec_list_dyn_unique chk dec enc (Pv : value -> Prop) :
+  (forall c v, canon c -> dec c = Ok v -> Pv v /\ enc v = c) ->
+  forall fuel tot n idx rest l, 0 <= n -> canon rest -> tot = idx + zlen rest ->
+    dec_list_dyn chk fuel dec tot n idx rest = Ok l ->
+    Forall Pv l /\ flat_map (prefixed enc) l = rest /\ zlen l = n.
+Proof.
+  intros Hd. induction fuel as [|f IH]; intros tot n idx rest l Hn Hc Htot H.
+  - cbn [dec_list_dyn] in H. destruct (n <=? 0) eqn:E0.
+    + destruct (is_nil rest) eqn:En; [|discriminate]. apply is_nil_true in En. inversion H; subst.
+      split; [constructor|]. split; [reflexivity|cbn [zlen]; blia].
+    + destruct rest; discriminate.
+  - cbn [dec_list_dyn] in H. destruct (n <=? 0) eqn:E0.
+    + destruct (is_nil rest) eqn:En; [|discriminate]. apply is_nil_true in En. inversion H; subst.
+      split; [constructor|]. split; [reflexivity|cbn [zlen]; blia].
+    + destruct rest as [|il rest1]; [discriminate|]. apply canon_cons in Hc. destruct Hc as [Hil Hc].
+      destruct (18446744073709551616 <=? idx + 1 + il) eqn:E1.
+      { destruct chk; [discriminate|]. destruct (tot <? idx + 1 + il - 18446744073709551616); discriminate. }
+      destruct (tot <? idx + 1 + il) eqn:E2; [discriminate|]. rewrite zlen_cons in Htot.
+      apply obind_ok in H. destruct H as (v & Hv & H). apply obind_ok in H. destruct H as (vs & Hvs & H). inversion H; subst.
+      destruct (Hd _ v (canon_ztake il _ Hc) Hv) as [Hp He].
+      assert (Hn1 : 0 <= n - 1) by blia.
+      assert (Hz : idx + (1 + zlen rest1) = idx + 1 + il + zlen (zdrop il rest1)) by (rewrite zlen_zdrop by blia; lia).
+      destruct (IH _ _ _ _ vs Hn1 (canon_zdrop il _ Hc) Hz Hvs) as (I1 & I2 & I3).
+      split; [constructor; assumption|]. cbn [flat_map]. unfold prefixed at 1. rewrite He, I2.
+      rewrite zlen_ztake by blia. cbn [app]. rewrite ztake_zdrop, zlen_cons, I3. split; [reflexivity|lia].
+Qed.
+
+Lemma dec_list_unique chk t n s l : unique_at chk t -> 0 <= n -> canon s ->
+  dec_list chk (static_length t) (decode chk t) n s = Ok l ->
+  Forall (typed t) l /\ enc_list (static_length t) (encode t) l = s /\ zlen l = n.
+Proof.
+  intros HQ Hn Hc H. unfold dec_list, enc_list in *. destruct (static_length t) as [w|] eqn:Ew; cbn [with_prefix].
+  - eapply dec_list_static_unique in H; [exact H|eapply static_length_nonneg; exact Ew|exact Hn|exact Hc|].
+    intros c v Hcc Hcv. apply HQ; assumption.
+  - eapply (dec_list_dyn_unique chk (decode chk t) (encode t) (typed t)) in H; [exact H| |exact Hn|exact Hc|lia].
+    intros c v Hcc Hcv. apply HQ; assumption.
+Qed.
+
+Lemma limb_low a r : 0 <= a < 4294967296 -> limb (a + 4294967296 * r) 0 = a.
+Proof. intros H. unfold limb. change (2 ^ (32 * 0)) with 1. rewrite Z.div_1_r. lia. Qed.
+
+Lemma limb_shift a r i : 0 <= a < 4294967296 -> 0 <= i -> limb (a + 4294967296 * r) (i + 1) = limb r i.
+Proof.
+  intros H Hi. unfold limb. replace (32 * (i + 1)) with (32 + 32 * i) by lia. rewrite Z.pow_add_r by lia.
+  change (2 ^ 32) with 4294967296. rewrite <- Z.div_div by (try lia; apply Z.pow_pos_nonneg; lia).
+  replace ((a + 4294967296 * r) / 4294967296) with r by lia. reflexivity.
+Qed.
+
+Lemma int_below_intro bound z : 0 <= z < bound -> int_below bound (VInt z) = true.
+Proof. intros H. cbn. apply andb_true_iff. split; [apply Z.leb_le|apply Z.ltb_lt]; lia. Qed.
+
+Lemma dec_small_unique max s v : canon s -> dec_small max s = Ok v ->
+  exists z, s = [z] /\ v = VInt z /\ 0 <= z <= max.
+Proof.
+  intros Hc H. destruct s as [|x [|y r]]; try discriminate. cbn [dec_small] in H.
+  destruct (max <? x) eqn:E; [discriminate|]. inversion H. apply canon_cons in Hc. exists x. repeat split; blia.
+Qed.
+
+Lemma u32s_unique s l : canon s -> map_outcome (fun x => dec_small 4294967295 [x]) s = Ok l ->
+  Forall (fun v => int_below 4294967296 v = true) l /\
+  flat_map (fun v => match v with VInt z => [z] | _ => [] end) l = s /\ zlen l = zlen s.
+Proof.
+  intros Hc H. apply map_outcome_ok in H. induction H as [|x v s l Hxv _ IH]; [split; [constructor|split; reflexivity]|].
+  apply canon_cons in Hc. destruct Hc as [Hx Hc]. destruct (IH Hc) as (I1 & I2 & I3).
+  apply dec_small_unique in Hxv; [|constructor; [exact Hx|constructor]]. destruct Hxv as (z & Hz & -> & Hr). inversion Hz; subst z.
+  split; [constructor; [apply int_below_intro; lia|exact I1]|]. cbn [flat_map app]. rewrite I2, !zlen_cons, I3. split; reflexivity.
+Qed.
+
+Theorem unique chk : forall t, unique_at chk t.
+Proof.
+  apply ty_nested_ind; unfold unique_at.
+  - (* Bfe *) intros s v Hc H. cbn [decode] in H. destruct s as [|x [|y r]]; try discriminate. inversion H; subst.
+    apply canon_cons in Hc. split; [apply int_below_intro; lia|reflexivity].
+  - intros s v Hc H. apply dec_small_unique in H; [|exact Hc]. destruct H as (z & -> & -> & Hz).
+    split; [apply int_below_intro; lia|reflexivity].
+  - intros s v Hc H. apply dec_small_unique in H; [|exact Hc]. destruct H as (z & -> & -> & Hz).
+    split; [apply int_below_intro; lia|reflexivity].
+  - intros s v Hc H. apply dec_small_unique in H; [|exact Hc]. destruct H as (z & -> & -> & Hz).
+    split; [apply int_below_intro; lia|reflexivity].
+  - (* U64 *) intros s v Hc H. cbn [decode] in H. unfold dec_big in H. destruct s as [|a [|b [|c r]]]; cbn [is_nil zlen] in H; try discriminate H.
+    + change (1 + 0 <? 2) with true in H. discriminate.
+    + change (1 + (1 + 0) <? 2) with false in H. change (2 <? 1 + (1 + 0)) with false in H. cbv iota in H. cbn [existsb] in H.
+      destruct (4294967295 <? a) eqn:Ea; [discriminate|]. destruct (4294967295 <? b) eqn:Eb; [discriminate|]. cbn [orb] in H.
+      inversion H; subst. cbn [limbs_value]. apply canon_cons in Hc. destruct Hc as [Ha Hc]. apply canon_cons in Hc. destruct Hc as [Hb _].
+      split; [apply int_below_intro; blia|]. cbn [encode]. rewrite limb_low by blia. rewrite (limb_shift a _ 0) by blia.
+      rewrite limb_low by blia. reflexivity.
+    + exfalso. pose proof (zlen_nonneg r). rewrite zlen_cons in H. destruct (1 + (1 + (1 + zlen r)) <? 2) eqn:E1; [blia|].
+      destruct (2 <? 1 + (1 + (1 + zlen r))) eqn:E2; [discriminate|blia].
+  - (* U128 *) intros s v Hc H. cbn [decode] in H. unfold dec_big in H.
+    destruct s as [|a [|b [|c [|d [|e r]]]]]; cbn [is_nil zlen] in H; try discriminate H.
+    + change (1 + 0 <? 4) with true in H. discriminate.
+    + change (1 + (1 + 0) <? 4) with true in H. discriminate.
+    + change (1 + (1 + (1 + 0)) <? 4) with true in H. discriminate.
+    + change (1 + (1 + (1 + (1 + 0))) <? 4) with false in H. change (4 <? 1 + (1 + (1 + (1 + 0)))) with false in H. cbv iota in H.
+      cbn [existsb] in H.
+      destruct (4294967295 <? a) eqn:Ea; [discriminate|]. destruct (4294967295 <? b) eqn:Eb; [discriminate|].
+      destruct (4294967295 <? c) eqn:Ec; [discriminate|]. destruct (4294967295 <? d) eqn:Ed; [discriminate|]. cbn [orb] in H.
+      inversion H; subst. cbn [limbs_value].
+      apply canon_cons in Hc. destruct Hc as [Ha Hc]. apply canon_cons in Hc. destruct Hc as [Hb Hc].
+      apply canon_cons in Hc. destruct Hc as [Hc' Hc]. apply canon_cons in Hc. destruct Hc as [Hd _].
+      split; [apply int_below_intro; blia|]. cbn [encode].
+      rewrite (limb_shift a _ 2) by blia. rewrite (limb_shift b _ 1) by blia. rewrite (limb_shift c _ 0) by blia.
+      rewrite (limb_shift a _ 1) by blia. rewrite (limb_shift b _ 0) by blia.
+      rewrite (limb_shift a _ 0) by blia. rewrite !limb_low by blia. reflexivity.
+    + exfalso. pose proof (zlen_nonneg r). rewrite zlen_cons in H. destruct (1 + (1 + (1 + (1 + (1 + zlen r)))) <? 4) eqn:E1; [blia|].
+      destruct (4 <? 1 + (1 + (1 + (1 + (1 + zlen r))))) eqn:E2; [discriminate|blia].
+  - (* Bool *) intros s v Hc H. cbn [decode] in H. destruct s as [|x [|y r]]; try discriminate. cbn [dec_bool] in H.
+    destruct (x =? 0) eqn:E0; [inversion H; assert (x = 0) by blia; subst; split; reflexivity|].
+    destruct (x =? 1) eqn:E1; [inversion H; assert (x = 1) by blia; subst; split; reflexivity|discriminate].
+  - (* Phantom *) intros s v Hc H. cbn [decode] in H. destruct s; [|discriminate]. inversion H. split; reflexivity.
+  - (* Box *) intros t IH s v Hc H. cbn [decode encode]. apply IH; assumption.
+  - (* Option *) intros t IH s v Hc H. cbn [decode] in H. destruct s as [|x r]; [discriminate|]. cbn [dec_option] in H.
+    apply canon_cons in Hc. destruct Hc as [Hx Hc].
+    destruct (x =? 0) eqn:E0.
+    + destruct (is_nil r) eqn:En; [|discriminate]. apply is_nil_true in En. inversion H; subst. assert (x = 0) by blia. subst. split; reflexivity.
+    + destruct (x =? 1) eqn:E1; [|discriminate]. apply obind_ok in H. destruct H as (w & Hw & H). inversion H; subst.
+      destruct (IH r w Hc Hw) as [Ht He]. assert (x = 1) by blia. subst. split; [exact Ht|]. cbn [encode]. rewrite He. reflexivity.
+  - (* Vec *) intros t IH s v Hc H. cbn [decode] in H. apply obind_ok in H. destruct H as (l & Hl & H). inversion H; subst.
+    destruct s as [|n r]; [discriminate|]. cbn [dec_vec] in Hl. apply canon_cons in Hc. destruct Hc as [Hn Hc].
+    apply dec_list_unique in Hl; [|exact IH|lia|exact Hc]. destruct Hl as (Hall & He & Hz).
+    split; [unfold typed; cbn [has_type]; apply forallb_Forall; exact Hall|]. cbn [encode]. rewrite He, Hz. reflexivity.
+  - (* Array *) intros n t IH s v Hc H. cbn [decode] in H. unfold dec_array in H.
+    match type of H with (if ?c then _ else _) = _ => destruct c end; [discriminate|].
+    apply obind_ok in H. destruct H as (l & Hl & H). destruct (zlen l =? Z.of_N n) eqn:E; [|discriminate]. inversion H; subst.
+    apply dec_list_unique in Hl; [|exact IH|lia|exact Hc]. destruct Hl as (Hall & He & Hz).
+    split; [|exact He]. unfold typed. cbn [has_type]. rewrite E. apply forallb_Forall. exact Hall.
+  - (* Tuple *) intros ts IH s v Hc H. cbn [decode] in H. fold (decs chk ts) in H. unfold dec_record in H.
+    apply obind_ok in H. destruct H as (vs & Hvs & H). inversion H; subst.
+    apply dec_fields_rev_unique in Hvs; [|exact IH|exact Hc]. destruct Hvs as [HT He].
+    split; [unfold typed; cbn [has_type]; apply apply_all_Forall2; exact HT|exact He].
+  - (* Poly *) intros t IH s v Hc H. cbn [decode] in H. unfold dec_poly in H. destruct s as [|ind r]; [discriminate|].
+    destruct (zlen (ind :: r) =? ind + 1) eqn:E; [|discriminate]. apply obind_ok in H. destruct H as (l & Hl & H).
+    destruct (last_nonzero l) eqn:Enz; [|discriminate]. inversion H; subst.
+    apply canon_cons in Hc. destruct Hc as [Hind Hc]. destruct r as [|n r']; [discriminate|]. cbn [dec_vec] in Hl.
+    apply canon_cons in Hc. destruct Hc as [Hn Hc].
+    apply dec_list_unique in Hl; [|exact IH|lia|exact Hc]. destruct Hl as (Hall & He & Hz).
+    split; [unfold typed; cbn [has_type]; rewrite Enz, andb_true_r; apply forallb_Forall; exact Hall|].
+    cbn [encode]. rewrite (strip_zeros_id l Enz), He, Hz. rewrite !zlen_cons in *. f_equal. blia.
+  - (* U32s *) intros n s v Hc H. cbn [decode] in H. unfold dec_u32s in H.
+    match type of H with (if ?c then _ else _) = _ => destruct c end; [discriminate|].
+    destruct (zlen s <? Z.of_N n) eqn:E1; [discriminate|]. destruct (Z.of_N n <? zlen s) eqn:E2; [discriminate|].
+    apply obind_ok in H. destruct H as (l & Hl & H). inversion H; subst. apply u32s_unique in Hl; [|exact Hc].
+    destruct Hl as (Hall & He & Hz). split; [|exact He]. unfold typed. cbn [has_type]. apply andb_true_iff. split; [apply Z.eqb_eq; blia|].
+    apply forallb_Forall. exact Hall.
+  - (* Struct *) intros ts IH s v Hc H. cbn [decode] in H. fold (decs chk ts) in H. unfold dec_record in H.
+    apply obind_ok in H. destruct H as (vs & Hvs & H). inversion H; subst.
+    apply dec_fields_rev_unique in Hvs; [|exact IH|exact Hc]. destruct Hvs as [HT He].
+    split; [unfold typed; cbn [has_type]; apply apply_all_Forall2; exact HT|exact He].
+  - (* Enum *) intros vs IH s v Hc H. cbn [decode] in H. unfold dec_enum in H. destruct s as [|d r]; [discriminate|].
+    rewrite (znth_opt_map (fun fs => map (fun t => (static_length t, decode chk t)) fs)) in H.
+    destruct (znth_opt d vs) as [fs|] eqn:Ed; cbn [option_map] in H; [|discriminate]. fold (decs chk fs) in H.
+    apply obind_ok in H. destruct H as (l & Hl & H). inversion H; subst. apply canon_cons in Hc. destruct Hc as [_ Hc].
+    rewrite Forall_forall in IH. apply dec_fields_rev_unique in Hl; [|apply IH; eapply znth_opt_In; exact Ed|exact Hc].
+    destruct Hl as [HT He]. split.
+    + unfold typed. cbn [has_type]. rewrite znth_opt_map, Ed. cbn [option_map]. apply apply_all_Forall2. exact HT.
+    + rewrite (encode_enum vs d _ fs Ed). rewrite He. reflexivity.
+Qed.
